@@ -23,6 +23,11 @@ def main():
         print("patch does not apply:", r.stderr)
         return 2
     results = {}
+    # a seeded run must not leave its (violation) evidence behind: evidence/<id>.json is restored afterwards
+    saved = {}
+    for pid in ids:
+        ep = os.path.join(VERIF, "evidence", pid + ".json")
+        saved[pid] = open(ep).read() if os.path.exists(ep) else None
     try:
         for pid in ids:
             t0 = time.time()
@@ -42,6 +47,9 @@ def main():
                                       [b.get("theorem") for b in (rep or {}).get("broken", [])]}
             print(pid, r.returncode, lines[-1] if lines else r.stdout[-300:])
     finally:
+        for pid, txt in saved.items():
+            if txt is not None:
+                open(os.path.join(VERIF, "evidence", pid + ".json"), "w").write(txt)
         sh(["git", "-C", "/repo", "checkout", "--", "."])
         sh(["git", "-C", "/repo", "clean", "-fdq", "--", "hcobs", "owning_iovec", "rough_tlv", "sliding_deque", "vouched_time"])
     caught = [p for p, v in results.items() if v["rc"] != 0]
